@@ -399,7 +399,7 @@ func (c *ClientConn) sendRequestBody(str *RequestStream, body io.ReadCloser, con
 	var extra int64
 	extra, err = io.CopyBuffer(io.Discard, sr, buf)
 	n += extra
-	if n > contentLength {
+	if n > contentLength || (n < contentLength && err == nil) {
 		str.CancelWrite(quic.StreamErrorCode(ErrCodeRequestCanceled))
 		return fmt.Errorf("http: ContentLength=%d with Body length %d", contentLength, n)
 	}
